@@ -232,6 +232,7 @@ PICKS = [
  ("pool.AttestationPool.AddAttestation", "existing.DataRoot != dataRoot", "a second vote by the same validator in the same epoch for other data is a double vote"),
  ("pool.AttestationPool.AddAttestation", "count == 1", "single-bit attestations are tracked per validator"),
  ("pool.AttestationPool.AddAttestation", "count == 0", "an attestation without participants is refused"),
+ ("phase0.SlashingsHistory.Deserialize", "common.Epoch(len(*a)) != spec.EPOCHS_PER_SLASHINGS_VECTOR", "a vector has exactly N elements: a recycled destination of any other length (shorter OR longer) is resized before decoding"),
 ]
 
 TYPED = [
